@@ -57,7 +57,8 @@ class Rec:
             return [e["x"] for e in self.con_events(0)]
         # no user function at all (fun=None, linear constraints only): the
         # only observable is the tap; build_x is a pure function of x
-        return [np.array(ev["pb"].build_x(ev["x"]), dtype=float)
+        from . import oracles
+        return [oracles.user_of(self, ev["pb"], ev["x"])
                 for ev in self.run.evals]
 
     def nl_values_at(self, x):
